@@ -340,6 +340,8 @@ impl PageCache {
             }
         }
 
+        #[cfg(kahflane_turdb_verif)]
+        crate::verif::point("cache.goi.after_fast_miss", &[key.file_id as i64, key.page_no as i64]);
         let shard = self.shard(&key);
         let mut guard = shard.write();
 
@@ -516,13 +518,24 @@ impl PageCache {
 
     pub fn clear(&self) {
         let page_count = self.len();
+        #[cfg(kahflane_turdb_verif)]
+        crate::verif::point("cache.clear.after_len", &[page_count as i64]);
+        #[cfg(kahflane_turdb_verif)]
+        let mut verif_shard = 0i64;
 
         for shard in &self.shards {
+            #[cfg(kahflane_turdb_verif)]
+            {
+                crate::verif::point("cache.clear.before_shard", &[verif_shard]);
+                verif_shard += 1;
+            }
             let mut guard = shard.write();
             guard.entries.clear();
             guard.index.clear();
             guard.hand = 0;
         }
+        #[cfg(kahflane_turdb_verif)]
+        crate::verif::point("cache.clear.after_shards", &[page_count as i64]);
 
         if let Some(budget) = &self.budget {
             budget.release(Pool::Cache, page_count * PAGE_SIZE);
